@@ -38,7 +38,7 @@ ASSUMPTIONS = [
 ANCHORS = ["dagrt.data:infer_kinds", "dagrt.data:KindInferenceMapper.map_power",
            "dagrt.data:KindInferenceMapper.map_quotient", "dagrt.data:KindInferenceMapper.map_generic_call",
            "dagrt.builtins_python:builtin_isnan"]
-MIN_NONTRIVIAL = {"quick": 1200, "thorough": 15000}
+MIN_NONTRIVIAL = {"quick": 1200, "thorough": 105000}
 REQUIRED_COUNTERS = {"quick": ["stored_values_checked", "inference_succeeded", "builtin_results_checked",
                                "usertype_programs"],
                      "thorough": ["stored_values_checked", "inference_succeeded", "builtin_results_checked",
@@ -47,7 +47,7 @@ SHARD_TIMEOUT = {"quick": 900, "thorough": 3400}
 
 
 def plan(tier, seed):
-    per = 150 if tier == "quick" else 1800
+    per = 150 if tier == "quick" else 18000
     sh = [{"kind": "prog", "seed": f"C09:{seed}:{k}", "count": per} for k in range(12)]
     sh += [{"kind": "ut", "seed": f"C09:{seed}:u{k}", "count": per * 2} for k in range(3)]
     sh.append({"kind": "builtins"})
